@@ -290,7 +290,7 @@ def evaluate_aligner(rp):
     if mask.tobytes() != b or (ref is not None and ref.tobytes() != br):
         return 'caller array modified', 'aligner:mutates:' + tag, None
     coq = None
-    if comparable(rp, K, T) and np.asarray(mapping).shape == (K, F):
+    if comparable(rp, K, T) and np.asarray(mapping).shape == (K, F) and F <= 129:
         coq = coq_for_aligner(rp, mask, np.asarray(mapping), ref)
     r = pc.check_alignment_result(mask, mapping, aligned, K)
     if r is not None:
@@ -320,6 +320,10 @@ def aligner_case(rng, tier, i, which=None):
     if K >= 5 and algo == 'optimal':
         F = min(F, 9)
     T = int(rng.integers(1, 13))
+    if i % 12 == 11:
+        # realistic numbers of frequency bins (block-wise processing, remainders): predicates only, no Coq literal
+        which, kind, K = ['greedy', 'oracle', 'greedy'][(i // 12) % 3], 'cont', int(rng.integers(2, 4))
+        F, T = int(rng.choice([301, 333, 515, 771])), int(rng.integers(3, 7))
     mask = pc.gen_mask(rng, K, F, T, kind)
     rp = {'fn': 'aligner', 'which': which, 'metric': metric, 'algo': algo, 'kind': kind, 'mask': mask}
     if which == 'dhtv':
